@@ -1,1 +1,219 @@
-//! Structural properties (filled in below).
+//! A uniform view of the library's function forms: flatten to numbers / rebuild from numbers,
+//! so drivers and replays can be written once and instantiated for every type.
+
+use piecewise_polynomial::*;
+
+pub trait Form: Sized + Clone + std::fmt::Debug + PartialEq {
+    /// e.g. "Poly3", "Log<Poly2>", "IntOfLog<Poly5>", "IntOfLogPoly4"
+    fn name() -> String;
+    /// how many numbers (None: dynamic)
+    fn arity() -> Option<usize>;
+    fn from_flat(v: &[f64]) -> Self;
+    fn flat(&self) -> Vec<f64>;
+}
+
+fn arr<const N: usize>(v: &[f64]) -> [f64; N] {
+    let mut a = [0.0; N];
+    a.copy_from_slice(&v[..N]);
+    a
+}
+
+impl Form for Poly0 {
+    fn name() -> String {
+        "Poly0".into()
+    }
+    fn arity() -> Option<usize> {
+        Some(1)
+    }
+    fn from_flat(v: &[f64]) -> Self {
+        Poly0(v[0])
+    }
+    fn flat(&self) -> Vec<f64> {
+        vec![self.0]
+    }
+}
+
+macro_rules! form_poly {
+    ($t:ident, $n:expr) => {
+        impl Form for $t {
+            fn name() -> String {
+                stringify!($t).into()
+            }
+            fn arity() -> Option<usize> {
+                Some($n)
+            }
+            fn from_flat(v: &[f64]) -> Self {
+                $t(arr::<$n>(v))
+            }
+            fn flat(&self) -> Vec<f64> {
+                self.0.to_vec()
+            }
+        }
+    };
+}
+form_poly!(Poly1, 2);
+form_poly!(Poly2, 3);
+form_poly!(Poly3, 4);
+form_poly!(Poly4, 5);
+form_poly!(Poly5, 6);
+form_poly!(Poly6, 7);
+form_poly!(Poly7, 8);
+form_poly!(Poly8, 9);
+
+impl Form for PolyN {
+    fn name() -> String {
+        "PolyN".into()
+    }
+    fn arity() -> Option<usize> {
+        None
+    }
+    fn from_flat(v: &[f64]) -> Self {
+        PolyN(v.to_vec())
+    }
+    fn flat(&self) -> Vec<f64> {
+        self.0.clone()
+    }
+}
+
+impl<T: Form + Copy> Form for Log<T> {
+    fn name() -> String {
+        format!("Log<{}>", T::name())
+    }
+    fn arity() -> Option<usize> {
+        T::arity()
+    }
+    fn from_flat(v: &[f64]) -> Self {
+        Log(T::from_flat(v))
+    }
+    fn flat(&self) -> Vec<f64> {
+        self.0.flat()
+    }
+}
+
+/// flat = [k, poly...]
+impl<T: Form + Copy> Form for IntOfLog<T> {
+    fn name() -> String {
+        format!("IntOfLog<{}>", T::name())
+    }
+    fn arity() -> Option<usize> {
+        T::arity().map(|n| n + 1)
+    }
+    fn from_flat(v: &[f64]) -> Self {
+        IntOfLog { k: v[0], poly: T::from_flat(&v[1..]) }
+    }
+    fn flat(&self) -> Vec<f64> {
+        let mut r = vec![self.k];
+        r.extend(self.poly.flat());
+        r
+    }
+}
+
+/// flat = [k, c1, c2, c3, c4, u]
+impl Form for IntOfLogPoly4 {
+    fn name() -> String {
+        "IntOfLogPoly4".into()
+    }
+    fn arity() -> Option<usize> {
+        Some(6)
+    }
+    fn from_flat(v: &[f64]) -> Self {
+        IntOfLogPoly4 { k: v[0], coeffs: arr::<4>(&v[1..5]), u: v[5] }
+    }
+    fn flat(&self) -> Vec<f64> {
+        vec![self.k, self.coeffs[0], self.coeffs[1], self.coeffs[2], self.coeffs[3], self.u]
+    }
+}
+
+/// flat = [end, poly...]
+impl<T: Form + Copy> Form for Segment<T> {
+    fn name() -> String {
+        format!("Segment<{}>", T::name())
+    }
+    fn arity() -> Option<usize> {
+        T::arity().map(|n| n + 1)
+    }
+    fn from_flat(v: &[f64]) -> Self {
+        Segment { end: v[0], poly: T::from_flat(&v[1..]) }
+    }
+    fn flat(&self) -> Vec<f64> {
+        let mut r = vec![self.end];
+        r.extend(self.poly.flat());
+        r
+    }
+}
+
+/// Piecewise over a fixed-arity piece type: flat = concatenation of segments
+pub fn pw_from_flat<T: Form + Copy>(v: &[f64]) -> Piecewise<T> {
+    let a = T::arity().expect("fixed arity") + 1;
+    Piecewise { segments: v.chunks(a).map(Segment::<T>::from_flat).collect() }
+}
+pub fn pw_flat<T: Form + Copy>(p: &Piecewise<T>) -> Vec<f64> {
+    p.segments.iter().flat_map(|s| s.flat()).collect()
+}
+
+/// Evaluate a fixed-degree polynomial given by its coefficient slice (len 1..=9) through the
+/// library's PolyK type of that degree.
+pub fn poly_eval(c: &[f64], x: f64) -> f64 {
+    match c.len() {
+        1 => Poly0::from_flat(c).evaluate(x),
+        2 => Poly1::from_flat(c).evaluate(x),
+        3 => Poly2::from_flat(c).evaluate(x),
+        4 => Poly3::from_flat(c).evaluate(x),
+        5 => Poly4::from_flat(c).evaluate(x),
+        6 => Poly5::from_flat(c).evaluate(x),
+        7 => Poly6::from_flat(c).evaluate(x),
+        8 => Poly7::from_flat(c).evaluate(x),
+        9 => Poly8::from_flat(c).evaluate(x),
+        n => panic!("no fixed polynomial type with {n} coefficients"),
+    }
+}
+pub fn log_poly_eval(c: &[f64], v: f64) -> f64 {
+    match c.len() {
+        1 => Log(Poly0::from_flat(c)).evaluate(v),
+        2 => Log(Poly1::from_flat(c)).evaluate(v),
+        3 => Log(Poly2::from_flat(c)).evaluate(v),
+        4 => Log(Poly3::from_flat(c)).evaluate(v),
+        5 => Log(Poly4::from_flat(c)).evaluate(v),
+        6 => Log(Poly5::from_flat(c)).evaluate(v),
+        7 => Log(Poly6::from_flat(c)).evaluate(v),
+        8 => Log(Poly7::from_flat(c)).evaluate(v),
+        9 => Log(Poly8::from_flat(c)).evaluate(v),
+        n => panic!("no fixed polynomial type with {n} coefficients"),
+    }
+}
+
+/// Run `$body` with `$T` bound to the fixed polynomial type with `$len` coefficients.
+#[macro_export]
+macro_rules! with_poly_type {
+    ($len:expr, $T:ident, $body:block) => {
+        match $len {
+            1 => { type $T = piecewise_polynomial::Poly0; $body }
+            2 => { type $T = piecewise_polynomial::Poly1; $body }
+            3 => { type $T = piecewise_polynomial::Poly2; $body }
+            4 => { type $T = piecewise_polynomial::Poly3; $body }
+            5 => { type $T = piecewise_polynomial::Poly4; $body }
+            6 => { type $T = piecewise_polynomial::Poly5; $body }
+            7 => { type $T = piecewise_polynomial::Poly6; $body }
+            8 => { type $T = piecewise_polynomial::Poly7; $body }
+            9 => { type $T = piecewise_polynomial::Poly8; $body }
+            n => panic!("no fixed polynomial type with {} coefficients", n),
+        }
+    };
+}
+/// Same for the integrable ones (Poly0..Poly7).
+#[macro_export]
+macro_rules! with_int_poly_type {
+    ($len:expr, $T:ident, $body:block) => {
+        match $len {
+            1 => { type $T = piecewise_polynomial::Poly0; $body }
+            2 => { type $T = piecewise_polynomial::Poly1; $body }
+            3 => { type $T = piecewise_polynomial::Poly2; $body }
+            4 => { type $T = piecewise_polynomial::Poly3; $body }
+            5 => { type $T = piecewise_polynomial::Poly4; $body }
+            6 => { type $T = piecewise_polynomial::Poly5; $body }
+            7 => { type $T = piecewise_polynomial::Poly6; $body }
+            8 => { type $T = piecewise_polynomial::Poly7; $body }
+            n => panic!("no integrable polynomial type with {} coefficients", n),
+        }
+    };
+}
